@@ -191,26 +191,9 @@ def run(cx: Cx):
 
     # the error classes themselves: their constructors only store and format (a helper that inspects the identifiers -
     # difflib on ids that are not strings - turns the documented error into whatever that helper raises)
+    from .common import check_error_ctor_pure
     for exq in (CORE + 'AgentNotFoundError', CORE + 'DuplicateAgentError'):
-        ci = prog.cls(exq)
-        init = ci.methods.get('__init__')
-        if not init:
-            continue
-        bad = None
-        for n_ in ast.walk(init[0].node):
-            if isinstance(n_, ast.Call):
-                f_ = n_.func
-                is_super = isinstance(f_, ast.Attribute) and f_.attr == '__init__'
-                is_fmt = isinstance(f_, ast.Name) and f_.id in ('str', 'repr', 'format', 'super', 'type') or \
-                    (isinstance(f_, ast.Attribute) and f_.attr in ('format', 'join'))
-                if not (is_super or is_fmt):
-                    bad = n_
-        if bad is not None:
-            cx.violation('R-PURE', init[0].qualname, 'error-constructor-only-stores-and-formats',
-                         f"{init[0].qualname} calls {ast.unparse(bad.func)}(...): when that call fails (identifiers of another type) the "
-                         f"operation ends in that error instead of the documented {ci.name}", where=cx.where(init[0], bad.lineno))
-        else:
-            cx.ok('R-PURE', f"{ci.name}.__init__ only stores and formats its arguments", where=cx.where(init[0]), function=init[0].qualname)
+        check_error_ctor_pure(cx, prog.cls(exq))
 
     from .common import include_premises
     include_premises(cx, ['C08'], 'placing an agent outside a spatial world must fail: the placement test is C08\'s',
